@@ -120,4 +120,4 @@ End DynP.
     last) gives the grid the right kicks only if the first kick was prepared elsewhere, and in any
     case hands the particles of step k the offsets of entry k+1: the two runs differ as soon as two
     consecutive entries give different offsets (computed example in Props/Properties_C15.v). *)
-Definition late_calc_body : list dynstmt := [DKickApply; DPushPast; DPop; DCalcKick].
+Definition late_calc_body : list dynstmt := [DKickApply; DPushPast; DPop; DCalcKickIfMore].
